@@ -68,6 +68,21 @@ PROPS = {
         ],
         "gen": ["TailLoops"],
     },
+    "C05": {
+        "level_text": "Lean 4 theorems over an executable model of a thread's on-disk state (truth log lines, a body written without its newline, the full sidecar, the messages+runs sidecar) while frames are appended effect by effect, a process death after any number of effects, reopening the log, and the first write after the restart: for EVERY history of acknowledged appends, EVERY further append (small or larger than the writer's buffer, message or not), EVERY crash point and EVERY number of further appends the log replays and is numbered 0,1,2,… without gap or duplicate, every acknowledged append is still where it was, the interrupted append is there at most once, and from the first further append on the thread's sidecar equals the log; a crashed disk always extends the disk before it. The statement is proved FALSE without each of the two repairs (duplicate seq from the sidecar's tail; unparseable merged line after a large frame) — regression witnesses. What the restarted authority's caches look like is characterised exactly: until the thread is written again its sidecar is a prefix at most one frame behind; the messages+runs sidecar is correct unless the crash fell between the sidecar line and the messages+runs line of a message frame, in which case exactly that frame is missing for ever (the two gaps are recorded known findings). EventLog::append's body / newline / flush order under its mutex is re-proved on the regenerated effect order. Tied on every run by crash points on the real code: a callback on the named points (cfg rip_verif) between the file-system effects of the log, the seven cache files, index.json and artifact writes copies the on-disk state; (a) plain histories: the raw state at every point, and the state after restart plus three appends, must equal the model's partialAppend / story; (b) mixed workloads (messages incl. frames larger than the writer buffer, runs, cursor updates, manual and automatic checkpoints with artifacts, branch, handoff, context compile) reopened at every point: validated replay, numbering, acknowledged bytes a prefix, further appends on every thread, and the C04 comparison (caches as found vs removed) before and after them. Two defects found and repaired.",
+        "level_note": "Lean kernel; crash = process death between system calls (tearing inside one write, and power loss reordering writes, are outside the model); the model has one thread and two of the seven cache files (the others follow the same two patterns and are covered by the crash-point run); artifacts, index.json and snapshots are covered by the crash-point run only (temp-file + rename).",
+        "technique": "Lean 4 proof (case analysis over crash points, induction over histories and further appends; decide-checked counterexamples for the unrepaired code) + decide over the regenerated log-append order + crash-point snapshots on the real code with disk-state correspondence and recovery oracles",
+        "design_ref": "§5 C05",
+        "trusted_base": COMMON_TB + [
+            "hooks: crash points log.* / cache.* / index.* / artifact.* and store.* (cfg rip_verif); the harness's directory copy at a point is the crash state",
+            "translator ripx (syn): effect order of EventLog::append",
+        ],
+        "assumptions": [
+            "process death between system calls; the OS keeps completed writes",
+            "known findings: caches one frame behind between the restart and the thread's first write; derived caches one frame short for ever after a crash between the cache files of one append (known_findings.json)",
+        ],
+        "gen": ["EffectOrder"],
+    },
     "C06": {
         "level_text": "Lean 4 theorems over a two-actor transition system (producer emitting n frames with a micro-program over lock / publish / record / unlock; subscriber doing subscribe, then snapshot under the same lock, then history ++ live filtered by seq): for each join-safe emit order, every n and EVERY interleaving, the subscriber delivers 0..n-1 exactly once in order; the producer is independent of subscribers; the snapshot is never blocked forever. The emit orders and handler orders are REGENERATED from the current source by the translator ripx on every run, and the obligations 'the session emitter / task emitter / every continuity append has a join-safe shape' and 'every handler subscribes before its snapshot' are re-proved by decide on the regenerated tables. Tied further by controlled-schedule correspondence: the real emitters and the real GET .../events handlers are single-stepped through yield points (cfg rip_verif) for every (subscribe, snapshot) position on short streams and random schedules on longer ones, all three stream kinds; delivered seqs must equal the model's and the observed point trace must match the generated order. A subscriber lagging more than the channel capacity loses frames: recorded known finding.",
         "level_note": "Lean kernel; tokio broadcast (FIFO delivery to receivers subscribed at send time) and tokio Mutex are modelled, not verified; the model's channel is unbounded (capacity is the known finding); ripx is trusted to report the order of the effect calls it recognises (cross-checked dynamically against the yield-point trace on every run).",
